@@ -570,6 +570,11 @@ class Transpiler:
         for p in u.params:
             m = re.match(r'^\(\s*([a-z_0-9]+)\s*=\s*(.*)\)$', p.strip(), re.I)
             out.append('  %s = %s;' % (self.cname(m.group(1).lower()), m.group(2)))
+        if u.name.lower() in SHAPE_UNITS:
+            # call trace of the beta samplers (unit, scalar input arguments): lets a harness find calls of different
+            # decay schemes that agree in some arguments and differ in others ("collision histories")
+            targs = [n for n in u.args if n.lower() not in ('tcnuc', 'thnuc', 'tdnuc')]
+            out.append('  TRACE_CALL(%d, {%s});' % (sorted(SHAPE_UNITS).index(u.name.lower()) + 1, ', '.join('(double)%s' % self.cname(n) for n in targs)))
         out.extend('  ' + b for b in body)
         if u.kind == 'function':
             out.append('  return %s;' % self.cname(u.name))
